@@ -353,6 +353,7 @@ class Exec:
             s.note_write(lst, name)
             raise Unsupported("list.%s" % name, node)
         if name == 'copy' and isinstance(lst, PList): return PList(lst.items)
+        if name == 'tolist': return Seq(lst.n, lst.fn, tag=lst.tag) if isinstance(lst, Seq) else PList(lst.items) if isinstance(lst, PList) else lst
         raise Unsupported("list method %s" % name, node)
 
     # ------------------------------------------------------------------ statements
@@ -602,6 +603,7 @@ class Exec:
             raise Raised('AttributeError', "%s.%s" % (b.name, attr), node)
         if isinstance(b, (PList, Grow, Post, Seq)): return Fn('listmethod', self=b, name=attr)
         if isinstance(b, Vec) and attr == 'T': return b
+        if isinstance(b, Vec) and attr == 'tolist': return Fn('builtin', name='tolist', py=lambda s_, b=b: PList(b.xs))
         if isinstance(b, Result_) : return b.get(attr)
         raise Unsupported("attribute %s of %r" % (attr, b), node, env.get('__path__') if env else None)
 
@@ -1133,6 +1135,30 @@ def _np_bin(opcls):
     return g
 
 
+def _np_arange(s, *a):
+    """numpy.arange(start, stop, step) in real arithmetic: ceil((stop-start)/step) points start + i*step (float rounding of the
+    length is outside the model)"""
+    if len(a) == 1: start, stop, step = lift(0), lift(a[0]), lift(1)
+    elif len(a) == 2: start, stop, step = lift(a[0]), lift(a[1]), lift(1)
+    elif len(a) == 3: start, stop, step = lift(a[0]), lift(a[1]), lift(a[2])
+    else: raise Unsupported("numpy.arange arguments")
+    s.defined(step)
+    q = (stop - start) / step
+    n = None
+    for name, v in ir.free_vars(q).items():
+        if v.a[1] == 'I':
+            try:
+                if ir.ring_equal(q, v): n = v; break
+            except RecursionError: pass
+    if n is None:
+        if q.op == 'c': n = lift(-((-q.a[0].numerator) // q.a[0].denominator))
+        else:
+            n = s.fresh('arange_len', 'I')
+            s.assume(band(cmp('>=', n, q), cmp('<', n, q + 1)), 'numpy.arange: number of points = ceil((stop-start)/step)')
+    if n.op == 'c': return Vec([start + lift(i) * step for i in range(int(n.a[0]))])
+    return Seq(n, lambda i: start + lift(i) * step)
+
+
 def _np_ones(s, n): return Seq(lift(n), lambda i: lift(1)) if not isinstance(n, int) else Vec([lift(1)] * n)
 
 
@@ -1169,7 +1195,7 @@ def _ext(name):
 
 NUMPY = {'exp': _vecmap(_exp1), 'log': _vecmap(_log1), 'sqrt': _vecmap(_sqrt1), 'array': _np_array,
          'multiply': _np_bin(ast.Mult), 'subtract': _np_bin(ast.Sub), 'divide': _np_bin(ast.Div), 'add': _np_bin(ast.Add),
-         'power': _np_power, 'sum': _np_sum, 'ones': _np_ones, 'vstack': _np_vstack, 'searchsorted': lambda s, *a, **k: _ext('numpy.searchsorted')(s, *a, **k)}
+         'power': _np_power, 'sum': _np_sum, 'ones': _np_ones, 'vstack': _np_vstack, 'searchsorted': lambda s, *a, **k: _ext('numpy.searchsorted')(s, *a, **k), 'arange': _np_arange}
 
 
 def _len(s, x):
